@@ -214,6 +214,9 @@ def stereo_mol_graph_to_rdmol(
                 idx_map_num_dict[a.GetIdx()]
                 for a in mol.GetAtomWithIdx(atom_idx).GetNeighbors()
             ])
+            if len(rd_nbrs) == 3:
+                # lone pair: the importer appends the None placeholder last
+                rd_nbrs = (*rd_nbrs, None)
 
             if a_stereo.parity is None:
                 rd_stereo = Chem.rdchem.ChiralType.CHI_TETRAHEDRAL
